@@ -33,6 +33,8 @@ void harness_run (void) ;			/* enumerate all cases via vl_case()/vl_end() */
 
 /* vl_case: start the next case. Returns 1 if the body must be executed now. */
 int  vl_case (const char *fmt, ...) __attribute__ ((format (printf, 1, 2))) ;
+int  vl_peek (void) ;				/* 1 if the next vl_case () would run its body (or a replay is in progress) */
+void vl_skip (long n) ;				/* count n cases as seen without naming them (only after vl_peek () returned 0) */
 /* vl_end: finish the case. nontrivial = counts towards distinct_nontrivial, outcome = hash of what was observed. */
 void vl_end (int nontrivial, uint64_t outcome) ;
 /* vl_subcase: inside a running case, name the sub-execution that follows (used as the spec of violations and crashes) */
